@@ -253,6 +253,8 @@ func runC10(c *report.Ctx) {
 	// ---- (5) the two history buckets keep their own key layouts --------------------------------------------
 	ruleSchema(c, []string{"nsGameHistory", "nsUnminedGameHistory"}, 6, 5)
 	ruleLayout(c, []string{"game-history-key", "credit-value"}, 15)
+	ruleFlagByteRMW(c)
+	ruleMaturityPerTemplate(c)
 }
 
 // ruleClassBits: bit masks OR-ed into byte 8 of a credit value by the writers vs the reader's decode.
